@@ -2,6 +2,8 @@
 # applies every stored seed to /repo in turn, runs the check of its property (+ extra checks given in seeded/<id>/also), restores /repo,
 # and writes the outcome into seeded/<id>/meta.json; prints one line per seed. /repo must be clean.
 cd /verif
+export VERIF_EVIDENCE_DIR=$(mktemp -d /tmp/verif_seed_evidence.XXXXXX)  # never overwrite the evidence of the unchanged tree
+trap 'rm -rf "$VERIF_EVIDENCE_DIR"' EXIT
 [ -n "$(git -C /repo status --porcelain)" ] && { echo "/repo not clean"; exit 1; }
 for D in seeded/*/; do
   ID=$(basename $D); PID=${ID%_*}
